@@ -121,6 +121,7 @@ namespace {
          apply(Req{ XferFromLinkage, 1 });          // "C"
          apply(Req{ Xfer, 2, 1 });                  // ("Java","fastcall")
          apply(Req{ Xfer, 1, 1 });                  // ("C","fastcall"): same linkage as xfer#3, same convention as xfer#4
+         apply(Req{ Xfer, 0, 1 });                  // ("C++","fastcall"): the natural linkage with a non-natural convention
          apply(Req{ ProductW, 0, 0 });              // product()
          apply(Req{ ProductW, 1, 0 });              // product(int)
          apply(Req{ SumW, 0, 0 });                  // sum()
@@ -377,8 +378,8 @@ namespace {
          for (int ti : FT) {
             a.push_back({ Function, pi, ti });
             for (int e : { 3, 4, 5 }) if (breadth > 0 or e != 5) a.push_back({ FunctionThrows, pi, ti, e });
-            for (int xi = 0; xi < x; ++xi) if (breadth > 0 or xi == 1 or xi == 3 or xi == 5) a.push_back({ FunctionXfer, pi, ti, xi });
-            for (int e : { 3, 4 }) for (int xi = 0; xi < x; ++xi) if (breadth > 0 ? true : (xi == 3 and e == 4)) a.push_back({ FunctionThrowsXfer, pi, ti, e, xi });
+            for (int xi = 0; xi < x; ++xi) if (breadth > 0 or xi == 1 or xi == 3 or xi == 5 or xi == 6) a.push_back({ FunctionXfer, pi, ti, xi });
+            for (int e : { 3, 4 }) for (int xi = 0; xi < x; ++xi) if (breadth > 0 ? true : ((xi == 3 or xi == 6) and e == 4)) a.push_back({ FunctionThrowsXfer, pi, ti, e, xi });
          }
       // products / sums from warehouses: all sequences of length <= 2 over the three base types (+ a few of length 3)
       auto warehouses = [&](int op) {
@@ -395,7 +396,7 @@ namespace {
       for (int i : T) for (int j : T) if (breadth > 0 or i != j) a.push_back({ Ptr_to_member, i, j });
       for (int pi : FP) for (int si = 0; si < s; ++si) a.push_back({ Tor, pi, si });
       for (int e : { 0, 2 }) a.push_back({ AsTypeExpr, e });
-      for (int e : { 0, 2 }) for (int xi = 0; xi < x; ++xi) if (breadth > 0 or xi == 1 or xi == 3 or xi == 5) a.push_back({ AsTypeExprXfer, e, xi });
+      for (int e : { 0, 2 }) for (int xi = 0; xi < x; ++xi) if (breadth > 0 or xi == 1 or xi == 3 or xi == 5 or xi == 6) a.push_back({ AsTypeExprXfer, e, xi });
       a.push_back({ AsTypeId, 0 });
       a.push_back({ AsTypeId, 1 });
       for (int l = 0; l < 3; ++l) a.push_back({ XferFromLinkage, l });
